@@ -43,6 +43,7 @@ def run(ctx):
     C14.wake2(ctx, facts)
     C14.guards(ctx, facts)
     C14.cursors(ctx, facts)
+    C14.waker_store(ctx, facts)
     ctx.assume("transport implementations deliver streams to the route they are given; interleavings beyond the waker discipline are not decided here")
 
 
